@@ -44,6 +44,11 @@ theorem coeffsCode_eq (r : Nat) (xs : List Rat) : coeffsCode r xs = coeffs r xs 
     | nil => rfl
     | cons x1 rest' => rw [coeffsCode_cons2, ih, coeffs]
 
+/-- key of the class-level table cache of `_get_linear_coefficients`: a table is looked up and stored
+    under the tolerance and the order it was computed for (the `kind` is not part of the key in the
+    code: candidate finding F50) -/
+def linCacheKey : List String := ["eps", "order"]
+
 /-- one constraint of the linearised goal: `lin - a*eps - b` with bounds `[0, inf)` -/
 def linRowFeasible (ab : Rat × Rat) (eps lin : Rat) : Bool := decide (0 ≤ lin - ab.1 * eps - ab.2)
 
